@@ -414,6 +414,9 @@ func NewPacket(fh *FixHeader, version Version, r io.Reader) (Packet, error) {
 	case PUBREC:
 		return NewPubrecPacket(fh, version, r)
 	case PUBREL:
+		if version != Version31 && fh.Flags != FlagPubrel {
+			return nil, codes.ErrMalformed
+		}
 		return NewPubrelPacket(fh, r)
 	case PUBCOMP:
 		return NewPubcompPacket(fh, version, r)
